@@ -260,7 +260,7 @@ def generate(tier, rng):
                 ['usq', 'rusq', 'drive', 'tern'] if sub in ('order', 'containers', 'fastpath') else [None]):
       if tier == 'quick' and sub == 'containers' and agg != 'usq':
         continue
-      if tier == 'quick' and agg == 'usq_arith':
+      if tier == 'quick' and agg == 'usq_arith' and sub != 'reuse':
         continue
       if tier == 'quick' and agg not in {'forms': ('usq', 'rusq'), 'owned': ('rusq', 'tern'), 'order': ('rusq', 'drive')}.get(sub, (agg,)):
         continue
@@ -279,7 +279,10 @@ def generate(tier, rng):
     for agg in AGGS:
       rounds = [1, 2, 3, rng.choice([1, 2, 3])]
       rng.shuffle(rounds)
-      combos += [(agg, nc, nr) for nc, nr in zip((1, 2, 3, 4), rounds)][:(2 if agg == 'usq_arith' else 4)]
+      if agg == 'usq_arith':          # hidden per-object state shows from the second round on: always several rounds
+        combos += [(agg, 2, 3), (agg, rng.choice([1, 3, 4]), 2)]
+      else:
+        combos += [(agg, nc, nr) for nc, nr in zip((1, 2, 3, 4), rounds)]
   for agg in ('rusq', 'drive', 'usq', 'tern'):
     for tree, share in (((7, False), (8, True)) if tier == 'quick' else ((7, False), (8, False), (3, True), (8, True))) \
         if agg in ('rusq', 'drive') else ((7, True),):
@@ -677,7 +680,10 @@ def run_X(case):
     f1, fs1 = fresh.apply(_xclients(case), fresh.init())
     f2, fs2 = fresh.apply(_xclients({**case, 'seed': case['seed'] + 1}), fs1)
     guard('fresh-object-round-1', lambda: _close(_flat(f1), o1c) and abs(float(fs1.num_bits) - b1) <= 1e-3 * (1 + b1))
-    guard('fresh-object-round-2', lambda: _close(_flat(f2), _flat(o2)) and np.array_equal(np.asarray(fs2.rng), np.asarray(s2.rng)))
+    guard('fresh-object-round-2', lambda: _close(_flat(f2), _flat(o2)) and np.array_equal(np.asarray(fs2.rng), np.asarray(s2.rng)) and
+          abs(float(fs2.num_bits) - float(s2.num_bits)) <= 1e-3 * (1 + abs(float(s2.num_bits))))
+    guard('second-round-increment-is-a-round-formula', lambda: (lambda inc, want: want is None or abs(inc - want) <= 1e-3 * (1 + want))(
+        float(s2.num_bits) - b1, _bits_formula(case['agg'], case['L'], 7, 2)))
     guard('first-object-again-from-init', lambda: _close(_flat(a.apply(_xclients(case), a.init())[0]), o1c))
     guard('same-state-twice', lambda: _close(_flat(a.apply(_xclients(case), st0)[0]), o1c))
     guard('state-advances', lambda: not np.array_equal(np.asarray(s1.rng), np.asarray(st0.rng)) and
